@@ -251,10 +251,14 @@ def judge(program, w, res):
                 bad.append(('root-success', 'e0_success fired %d times for root e%d (raised=%r)' % (len(succ), eid, raises)))
             elif succ and succ[0] < last:
                 bad.append(('root-success-early', 'e0_success before the caller finished'))
+            elif succ and log[succ[0]][4] != (True, repr(exp)):
+                bad.append(('root-success-args', 'e0_success for root e%d carries %r instead of (the event, its value %r)' % (eid, log[succ[0]][4], exp)))
             if len(comp) != 1:
                 bad.append(('root-complete', 'e0_complete fired %d times for root e%d' % (len(comp), eid)))
             elif comp[0] < last:
                 bad.append(('root-complete-early', 'e0_complete before the caller finished'))
+            elif log[comp[0]][4] != (True, repr(exp)):
+                bad.append(('root-complete-args', 'e0_complete for root e%d carries %r instead of (the event, its value %r)' % (eid, log[comp[0]][4], exp)))
     before, after, ntasks = w.residue
     if before is not None and after is not None and before != after:
         diff = {k: (before.get(k, 0), after.get(k, 0)) for k in set(before) | set(after) if before.get(k, 0) != after.get(k, 0)}
